@@ -2,6 +2,7 @@ CONSTANTS
   NNames = 3
   MaxOps = @MAXOPS@
   WithHist = @HIST@
+  Part = 0
 INIT Init
 NEXT Next
 INVARIANTS TypeOK LocalsDisjoint ResolvableDisjoint GlobalsDense LocalCountCovers IndexMonotone ResolveInnermost
